@@ -261,6 +261,10 @@ func (o *object) hasInstance(of Value) bool {
 		// We should not have a hasInstance method
 		panic(o.runtime.panicTypeError("Object.hasInstance not callable"))
 	}
+	if bound, ok := o.value.(bindFunctionObject); ok {
+		// 15.3.4.5.3: a bound function has no prototype property, it asks its target.
+		return bound.target.hasInstance(of)
+	}
 	if !of.IsObject() {
 		return false
 	}
